@@ -119,6 +119,42 @@ theorem assertUnordered_iff (a b : List α) : assertUnordered a b = true ↔ a.P
     simp only [Bool.and_eq_true, beq_iff_eq]
     exact ⟨⟨h.length_eq, setEq_of_perm h⟩, (countsEq_iff a b).mpr (List.perm_iff_count.mp h)⟩
 
+/-- the unordered assertion is an equivalence relation on collections — reflexive, symmetric, transitive — so a chain
+    of passing assertions (`actual ~ golden₁`, `golden₁ ~ golden₂`) can be trusted end to end, and the argument order
+    (`actual, expected` or the reverse) does not matter -/
+theorem assertUnordered_refl (a : List α) : assertUnordered a a = true :=
+  (assertUnordered_iff a a).mpr (List.Perm.refl a)
+
+theorem assertUnordered_symm (a b : List α) : assertUnordered a b = assertUnordered b a := by
+  rw [Bool.eq_iff_iff, assertUnordered_iff, assertUnordered_iff]
+  exact ⟨List.Perm.symm, List.Perm.symm⟩
+
+theorem assertUnordered_trans (a b d : List α) (h1 : assertUnordered a b = true) (h2 : assertUnordered b d = true) :
+    assertUnordered a d = true :=
+  (assertUnordered_iff a d).mpr (((assertUnordered_iff a b).mp h1).trans ((assertUnordered_iff b d).mp h2))
+
+/-- the ordered assertion is strictly stronger: whatever it accepts the unordered one accepts, and the converse fails
+    (`[1,2]` / `[2,1]`) -/
+theorem assertEqual_implies_unordered (a b : List α) (h : assertEqual a b = true) : assertUnordered a b = true := by
+  rw [(assertEqual_iff a b).mp h]; exact assertUnordered_refl b
+
+theorem assertEqual_symm (a b : List α) : assertEqual a b = assertEqual b a := by
+  rw [Bool.eq_iff_iff, assertEqual_iff, assertEqual_iff]
+  exact ⟨Eq.symm, Eq.symm⟩
+
+example : assertUnordered [1, 2] [2, 1] = true ∧ assertEqual [1, 2] [2, 1] = false := by decide
+
+/-- both assertions reject collections of different sizes, whatever their elements -/
+theorem assert_rejects_size_mismatch (a b : List α) (h : a.length ≠ b.length) :
+    assertUnordered a b = false ∧ assertEqual a b = false := by
+  constructor
+  · cases hu : assertUnordered a b with
+    | false => rfl
+    | true => exact absurd ((assertUnordered_iff a b).mp hu).length_eq h
+  · cases he : assertEqual a b with
+    | false => rfl
+    | true => exact absurd (congrArg List.length ((assertEqual_iff a b).mp he)) h
+
 /-- the `HashMap` counter of `first_count_mismatch` reports nothing **iff** every element occurs
     equally often on both sides (no assumption on the hasher: the map is only ever queried by key) -/
 theorem firstCountMismatch_none_iff (a b : List α) :
